@@ -226,19 +226,26 @@ def sm_families(prop):
          "outside": ["EventLoop::poll/select, Network::readb, timers (async/tokio)", "max_inflight > 3",
                      "MqttState::clean() with held publishes (CBMC > 48 GB)", "MQTT 5 state machine"]},
         {"name": "v5_steps", "filters": ["sm::v5::in_puback_m2", "sm::v5::in_puback_failure_m2", "sm::v5::in_pubrec_failure_m2",
-                                         "sm::v5::in_pubcomp_m2"],
+                                         "sm::v5::in_pubcomp_m2", "sm::v5::out_publish_m2", "sm::v5::in_pubrec_m2",
+                                         "sm::v5::in_publish_m2", "sm::v5::in_pubrel_m2", "sm::v5::out_subscribe_m2",
+                                         "sm::v5::out_ping_m2", "sm::v5::in_misc_m2", "sm::v5::in_connack_"],
          "tier": "thorough", "timeout": 2400, "jobs": 1, "mem_gb": 46, "min_harnesses": 4, "playback": False,
          "kind": "I (inductive steps of the MQTT 5 client state machine; shared by C02/C07/C10 - every clause asserted, one at a time "
-                 "with 46 GB: each needs 8-15 min and ~40 GB)",
-         "bounds": "max_inflight 2; arbitrary INV state as for the 3.1.1 client; PUBACK with success and with a failure reason, PUBREC "
-                   "with a failure reason, PUBCOMP (success); broker ids symbolic over {0..=3, 0xFFFF}; no properties, no topic alias",
+                 "with up to 46 GB: each needs 3-15 min)",
+         "bounds": "max_inflight 2; arbitrary INV state as for the 3.1.1 client; outgoing publish / subscribe / ping; incoming PUBACK "
+                   "with success and with a failure reason, PUBREC with success and with a failure reason, PUBCOMP (success), "
+                   "PUBLISH (QoS 0/1/2, no properties), PUBREL, PINGRESP, CONNACK with a symbolic receive-maximum / "
+                   "topic-alias-maximum and without properties; broker ids symbolic over {0..=3, 0xFFFF}; no topic alias",
          "asserts": "as v4_steps, plus: a failure reason code still frees the slot and the window and resolves a collision parked on "
                     "that id; PUBCOMP is validated before the parked publish is touched",
          "encodes": ["rumqttc::v5::MqttState::{new, handle_incoming_packet, handle_incoming_puback, handle_incoming_pubrec, "
-                     "handle_incoming_pubcomp, check_collision}"],
+                     "handle_incoming_pubcomp, handle_incoming_publish, handle_incoming_pubrel, handle_incoming_pingresp, "
+                     "handle_incoming_connack, handle_outgoing_packet, outgoing_publish, outgoing_subscribe, outgoing_ping, "
+                     "save_pubrel, next_pkid, check_collision}"],
          "stubs": SM_STUBS + ["std::hash::RandomState::new -> fixed keys (the topic-alias HashMap stays empty)"],
          "assumes": [SM_INV],
-         "outside": ["the other MQTT 5 steps (written in sm/v5.rs, not run: ~15 min and 40 GB each)", "topic aliases, receive-maximum"]},
+         "outside": ["max_inflight 1 and 3 instances and clean()/replay for MQTT 5 (written in sm/v5.rs, not run)", "topic aliases, "
+                     "states whose negotiated window is already below the configured limit, SUBACK/UNSUBACK/DISCONNECT/AUTH"]},
         {"name": "bitset_sizes", "filters": ["sm::v4::bitset_sizes"], "tier": "quick", "timeout": 300, "jobs": 6,
          "kind": "stub contract witness", "bounds": "max_inflight = 3",
          "asserts": "MqttState::new requests max+1 bits for outgoing_rel and 65536 bits for incoming_pub",
